@@ -215,5 +215,71 @@ theorem requestTrackLoop_ok {fl : α → Int} (hf : IsFloor fl) (ix : Index α) 
         exact Or.inr hp)
       exact ⟨l, by simp only [requestTrackLoop, hs, h]⟩
 
+/-- the cells tile every axis of positive length exactly -/
+def Tiled (ix : Index α) : Prop :=
+  (ix.xmin < ix.xmax → ix.dX * ((ix.csize : Int) : α) = ix.xmax - ix.xmin) ∧
+  (ix.ymin < ix.ymax → ix.dY * ((ix.lsize : Int) : α) = ix.ymax - ix.ymin)
+
+omit [IsStrictOrderedRing α] in
+theorem Tiled.same {ix ix' : Index α} (h : Tiled ix) (hs : Same ix ix') : Tiled ix' := by
+  obtain ⟨e1, e2, e3, e4, e5, e6, e7, e8⟩ := hs
+  unfold Tiled
+  rw [e1, e2, e3, e4, e5, e6, e7, e8]
+  exact h
+
+theorem build_tiled {fl : α → Int} (hf : IsFloor fl) (feats : List (List (α × α))) (res : Option (α × α)) (margin : α)
+    (ix : Index α) (hm : 0 ≤ margin) (hres : ∀ r, res = some r → 0 < r.1 ∧ 0 < r.2)
+    (hb : build fl feats res margin = .ok ix) : Tiled ix := by
+  obtain ⟨_, _, _, _, tX, tY, _, _⟩ := build_grid hf feats res margin ix hm hres hb
+  exact ⟨tX, tY⟩
+
+/-- on a good, tiled index the fractional indices of a point of the extent lie in `[0, csize] × [0, lsize]` -/
+theorem getCell_range_of_good (ix : Index α) (hg : Good ix) (ht : Tiled ix) (p c : α × α)
+    (hp : getCell ix p = some c) :
+    (0 ≤ c.1 ∧ c.1 ≤ ((ix.csize : Int) : α)) ∧ (0 ≤ c.2 ∧ c.2 ≤ ((ix.lsize : Int) : α)) := by
+  obtain ⟨_, hcs, hls, hdX, hdY⟩ := hg
+  obtain ⟨a1, a2, rfl⟩ := (getCell_some_iff ix p c).mp hp
+  exact ⟨frac_index_range ix.xmin ix.xmax ix.dX p.1 ix.csize hdX hcs ht.1 a1.1 a1.2,
+    frac_index_range ix.ymin ix.ymax ix.dY p.2 ix.lsize hdY hls ht.2 a2.1 a2.2⟩
+
+theorem mem_of_consec {β : Type} (t : List β) (A B : β) (hAB : (A, B) ∈ Consec t) : A ∈ t ∧ B ∈ t := by
+  induction t with
+  | nil => simp [Consec] at hAB
+  | cons a rest ih =>
+    cases rest with
+    | nil => simp [Consec] at hAB
+    | cons b rest' =>
+      simp only [Consec, List.mem_cons, Prod.mk.injEq] at hAB
+      rcases hAB with ⟨rfl, rfl⟩ | hAB
+      · simp
+      · have := ih hAB
+        exact ⟨List.mem_cons_of_mem _ this.1, List.mem_cons_of_mem _ this.2⟩
+
+/-- `addFeature(track, num)` on an existing index (a later addition, `Network.addEdge` on an indexed network) whose
+vertices are all inside the extent: it returns, nothing registered before is lost, the index stays good and tiled,
+and every point of every segment of the track lies in a cell that lists `num` -/
+theorem addFeature_complete {fl : α → Int} (hf : IsFloor fl) (ix : Index α) (hg : Good ix) (ht : Tiled ix)
+    (track : List (α × α)) (num : Nat) (hin : ∀ p ∈ track, getCell ix p ≠ none) :
+    ∃ ix', addFeature fl ix track num = .ok ix' ∧ Good ix' ∧ Tiled ix' ∧ Ext ix ix' ∧
+      ∀ A B, (A, B) ∈ Consec track → ∀ s : α, 0 ≤ s → s ≤ 1 →
+        ∃ c, getCell ix' (lerp A B s) = some c ∧ Holds ix'.grid (cellOf fl ix' c).1 (cellOf fl ix' c).2 num := by
+  have hin0 : ∀ p ∈ (none : Option (α × α)).toList ++ track, getCell ix p ≠ none := by
+    intro p hp; exact hin p (by simpa using hp)
+  obtain ⟨ix', h⟩ := addFeatureLoop_ok hf num track ix none hg hin0
+  obtain ⟨e, w, _, r⟩ := addFeatureLoop_spec fl num track ix ix' none hg.1 hin0 h
+  refine ⟨ix', h, hg.same e.1 w, ht.same e.1, e, ?_⟩
+  intro A B hAB s hs0 hs1
+  obtain ⟨mA, mB⟩ := mem_of_consec track A B hAB
+  obtain ⟨pA, hpA⟩ := Option.ne_none_iff_exists'.mp (hin A mA)
+  obtain ⟨pB, hpB⟩ := Option.ne_none_iff_exists'.mp (hin B mB)
+  have hP := getCell_lerp ix A B pA pB s hs0 hs1 hpA hpB
+  obtain ⟨r1, r2⟩ := getCell_range_of_good ix hg ht _ _ hP
+  refine ⟨lerp pA pB s, by rw [getCell_same e.1]; exact hP, ?_⟩
+  have := r A B (by simpa using hAB) pA pB hpA hpB _
+    (cellsCross_complete hf ix.csize ix.lsize pA pB s hs0 hs1 r1.2 r2.2)
+  unfold cellOf
+  rw [e.1.2.2.2.2.1, e.1.2.2.2.2.2.1]
+  exact this
+
 end scalar
 end TV.Grid
